@@ -1,6 +1,6 @@
 // instantiation-only driver for include/nano/tensor/storage.h (no logic): forces every constructor, assignment operator,
 // resize and data() of the three storage classes (owning vector, constant mapping, mutable mapping) and the converting
-// constructors / assignment of tensor_t, for scalar double and ranks 1 and 2
+// constructors / assignment of tensor_t, for scalar double and ranks 1, 2 and 3
 #include <nano/tensor/tensor.h>
 #include <utility>
 namespace nvdrv
@@ -20,6 +20,7 @@ template <size_t R> void ms_default_ctor() { MS<R> s; }
 // ---- owning storage
 void vs_ctor_sizes_1(ts a) { VS<1> s(a); }
 void vs_ctor_sizes_2(ts a, ts b) { VS<2> s(a, b); }
+void vs_ctor_sizes_3(ts a, ts b, ts c) { VS<3> s(a, b, c); }
 template <size_t R> void vs_ctor_dims(const tensor_dims_t<R>& d) { VS<R> s(d); }
 template <size_t R> void vs_from_c(const CS<R>& c) { VS<R> s(c); }
 template <size_t R> void vs_from_m(const MS<R>& m) { VS<R> s(m); }
@@ -31,12 +32,14 @@ template <size_t R> void vs_copy_assign(VS<R>& s, const VS<R>& o) { s = o; }
 template <size_t R> void vs_move_assign(VS<R>& s, VS<R>& o) { s = std::move(o); }
 void vs_resize_sizes_1(VS<1>& s, ts a) { s.resize(a); }
 void vs_resize_sizes_2(VS<2>& s, ts a, ts b) { s.resize(a, b); }
+void vs_resize_sizes_3(VS<3>& s, ts a, ts b, ts c) { s.resize(a, b, c); }
 template <size_t R> void vs_resize_dims(VS<R>& s, const tensor_dims_t<R>& d) { s.resize(d); }
 template <size_t R> auto vs_data(VS<R>& s) { return s.data(); }
 template <size_t R> auto vs_cdata(const VS<R>& s) { return s.data(); }
 // ---- constant mapping storage
 void cs_ctor_sizes_1(const double* p, ts a) { CS<1> s(p, a); }
 void cs_ctor_sizes_2(const double* p, ts a, ts b) { CS<2> s(p, a, b); }
+void cs_ctor_sizes_3(const double* p, ts a, ts b, ts c) { CS<3> s(p, a, b, c); }
 template <size_t R> void cs_ctor_dims(const double* p, const tensor_dims_t<R>& d) { CS<R> s(p, d); }
 template <size_t R> void cs_from_v(const VS<R>& v) { CS<R> s(v); }
 template <size_t R> void cs_from_m(const MS<R>& m) { CS<R> s(m); }
@@ -46,6 +49,7 @@ template <size_t R> auto cs_data(const CS<R>& s) { return s.data(); }
 // ---- mutable mapping storage
 void ms_ctor_sizes_1(double* p, ts a) { MS<1> s(p, a); }
 void ms_ctor_sizes_2(double* p, ts a, ts b) { MS<2> s(p, a, b); }
+void ms_ctor_sizes_3(double* p, ts a, ts b, ts c) { MS<3> s(p, a, b, c); }
 template <size_t R> void ms_ctor_dims(double* p, const tensor_dims_t<R>& d) { MS<R> s(p, d); }
 template <size_t R> void ms_from_v(VS<R>& v) { MS<R> s(v); }
 template <size_t R> void ms_copy_ctor(const MS<R>& o) { MS<R> s(o); }
@@ -66,6 +70,7 @@ template <size_t R> void t_map_assign_mem(tensor_map_t<double, R>& t, const tens
 template <size_t R> void t_map_assign_cmap(tensor_map_t<double, R>& t, const tensor_cmap_t<double, R>& c) { t = c; }
 template <size_t R> void t_map_assign_map(tensor_map_t<double, R>& t, const tensor_map_t<double, R>& m) { t = m; }
 template <size_t R> void t_mem_resize(tensor_mem_t<double, R>& t, const tensor_dims_t<R>& d) { t.resize(d); }
+template <size_t R> void t_map_move_assign(tensor_map_t<double, R>& t, tensor_map_t<double, R>& m) { t = std::move(m); }
 #define NV_ALL(R)                                                                                                          \
     template void vs_default_ctor<R>(); template void cs_default_ctor<R>(); template void ms_default_ctor<R>();            \
     template void vs_ctor_dims<R>(const tensor_dims_t<R>&); template void vs_from_c<R>(const CS<R>&);                      \
@@ -89,7 +94,9 @@ template <size_t R> void t_mem_resize(tensor_mem_t<double, R>& t, const tensor_d
     template void t_map_assign_mem<R>(tensor_map_t<double, R>&, const tensor_mem_t<double, R>&);                           \
     template void t_map_assign_cmap<R>(tensor_map_t<double, R>&, const tensor_cmap_t<double, R>&);                         \
     template void t_map_assign_map<R>(tensor_map_t<double, R>&, const tensor_map_t<double, R>&);                           \
-    template void t_mem_resize<R>(tensor_mem_t<double, R>&, const tensor_dims_t<R>&);
+    template void t_mem_resize<R>(tensor_mem_t<double, R>&, const tensor_dims_t<R>&);                                      \
+    template void t_map_move_assign<R>(tensor_map_t<double, R>&, tensor_map_t<double, R>&);
 NV_ALL(1)
 NV_ALL(2)
+NV_ALL(3)
 } // namespace nvdrv
